@@ -58,6 +58,29 @@ def adsb_on_short_frames(msg, name):
         assert o == ("raise", "RuntimeError"), "ADS-B decoders raise RuntimeError on a short (non-DF17/18) frame"
 
 
+@harness("C14", inputs={"msg": HexStr(28), "name": Choice(*ADSB_1)}, functions=["pyModeS.decoder.adsb.*"],
+         regions=["region_oe_flag_long"])
+def adsb_total_on_long_frames(msg, name):
+    # the literal totality clause for every exported ADS-B decoder on every 112-bit frame (the exact values are
+    # the business of the body obligations of C02-C13; wrappers without one, e.g. speed_heading, are covered here)
+    o = outcome(getattr(ADSB, name), msg)
+    assert o[0] == "ret" or o == ("raise", "RuntimeError"), \
+        "returns a value or raises RuntimeError on every 112-bit frame (no other exception type escapes)"
+
+
+@harness("C14", inputs={"msg": HexStr(28), "name": Choice(*[n for n in COMMB_1 if n != "cap17"])},
+         functions=["pyModeS.decoder.commb.*"])
+def commb_total_on_long_frames(msg, name):
+    # (cap17 builds one of 2**24 lists: its own obligations are c11.cap17_* - deductive up to two bits, bounded beyond)
+    o = outcome(getattr(COMMB, name), msg)
+    assert o[0] == "ret" or o == ("raise", "RuntimeError"), \
+        "returns a value or raises RuntimeError on every 112-bit frame (no other exception type escapes)"
+
+
+def region_oe_flag_long(msg, name):
+    return False
+
+
 def region_oe_flag_short(msg, name):
     """F17 (part): oe_flag has no DF / TC guard"""
     return name == "oe_flag"
